@@ -214,7 +214,37 @@ def check(ctx, F):
 FACADE = ("isActive", "isResumable", "isPendingChange", "isPendingEnter", "isPendingExit", "activeSubState")
 
 
+def check_facade_typed(ctx, F):
+    """the state-typed overloads (isActive<S>(), activeSubState<S>(), isPendingExit<S>() ...) name the state by its *state* identifier:
+    they return the id-taking member (or the registry member) applied to stateId<S>() - a region identifier there answers for another state"""
+    for cls in ("GuardControlT", "R_", "ControlT", "ConstControlT"):
+        for fid, b in insts(F, cls, set(FACADE) | {"isScheduled"}):
+            if b.get("params") or not b.get("ftargs"):
+                continue
+            site = "%s::%s<TState>" % (cls, b["name"])
+            rets = [x for x in walk(b["body"]) if x.get("k") == "ret" and x.get("e") is not None]
+            ok = False
+            what = None
+            if len(rets) == 1:
+                e = strip(rets[0]["e"])
+                what = _expr_txt(e)
+                if e.get("k") == "call" and "f" in e:
+                    callee = F.fn(e["f"])["name"]
+                    args = [strip(a) for a in e.get("a", [])]
+                    same = callee == b["name"] or (b["name"] == "isScheduled" and callee == "isResumable")
+                    if same and len(args) == 1 and args[0].get("k") == "call" and "f" in args[0] and F.fn(args[0]["f"])["name"] == "stateId":
+                        ok = True
+                    elif same and not args and F.fn(e["f"]).get("ftargs"):
+                        ok = True          # forwards to a typed sibling, which is judged itself
+            ctx.instance("C13.facade", site, {"function": site, "loc": F.floc(fid), "returns": what})
+            if not ok:
+                ctx.violation("C13.facade", site, "%s (%s)" % (site, F.floc(fid)),
+                              "%s returns `%s`, expected `%s(stateId<TState>())`: the state is named by something other than its state identifier" % (
+                                  site, what, b["name"]), {})
+
+
 def check_facade(ctx, F):
+    check_facade_typed(ctx, F)
     for cls in ("GuardControlT", "R_", "ControlT", "ConstControlT"):
         for fid, b in insts(F, cls, set(FACADE) | {"isScheduled"}):
             ps = b.get("params", [])
